@@ -5,7 +5,7 @@ Written from the file format, not from `src/IniFile.cpp`: a document is a list o
 (section header, `key = value` with optional blanks, `#`/`;` comment, blank line); its text is
 the items joined by LF or CRLF, with or without a final line end; its meaning is the relation
 "section, key ↦ value of the last such entry", the section-less keys living in the group
-that the API calls `-`.  Core Lean only; no definition of the model is used here.
+that the API calls `-`.  All texts are NUL-free: the library reads with `fgets`/`strlen` and passes C strings.  Core Lean only; no definition of the model is used here.
 -/
 namespace C18Spec
 
@@ -34,24 +34,24 @@ def Blank (ws : Bytes) : Prop := ∀ c ∈ ws, c = 32 ∨ c = 9
 /-- blank or line break -/
 def White (c : UInt8) : Prop := c = 32 ∨ c = 9 ∨ c = 10 ∨ c = 13
 
-/-- a section name: anything on one line without `]` -/
-def NameOK (n : Bytes) : Prop := 93 ∉ n ∧ 10 ∉ n
+/-- a section name: anything on one line without `]` (and, the API being C strings, without NUL) -/
+def NameOK (n : Bytes) : Prop := 93 ∉ n ∧ 10 ∉ n ∧ 0 ∉ n
 
 /-- a key: non-empty, one line, no `=`, no `/` (the API's section separator), no outer white space,
     starting with an ASCII byte above `/` other than `;` and `[` (letters, digits, `_`, …) -/
 def KeyOK (k : Bytes) : Prop :=
   k ≠ [] ∧ 61 ∉ k ∧ 10 ∉ k ∧ 47 ∉ k ∧
   (∀ c, k.head? = some c → 47 < c ∧ c < 128 ∧ c ≠ 59 ∧ c ≠ 91) ∧
-  (∀ c, k.getLast? = some c → ¬ White c)
+  (∀ c, k.getLast? = some c → ¬ White c) ∧ 0 ∉ k
 
 /-- a value: one line, no leading or trailing white space (may be empty, may contain `=`, `#`, `;`, `[`, blanks) -/
 def ValOK (v : Bytes) : Prop :=
-  10 ∉ v ∧ (∀ c, v.head? = some c → ¬ White c) ∧ (∀ c, v.getLast? = some c → ¬ White c)
+  10 ∉ v ∧ (∀ c, v.head? = some c → ¬ White c) ∧ (∀ c, v.getLast? = some c → ¬ White c) ∧ 0 ∉ v
 
 def Item.WF : Item → Prop
   | .header n => NameOK n
   | .kv ind key ws1 ws2 val ws3 => Blank ind ∧ KeyOK key ∧ Blank ws1 ∧ Blank ws2 ∧ ValOK val ∧ Blank ws3
-  | .comment ws m t => Blank ws ∧ (m = 35 ∨ m = 59) ∧ 10 ∉ t ∧ t.getLast? ≠ some 13
+  | .comment ws m t => Blank ws ∧ (m = 35 ∨ m = 59) ∧ 10 ∉ t ∧ t.getLast? ≠ some 13 ∧ 0 ∉ t
   | .blank ws => Blank ws
 
 /-- identifier-like keys (`[A-Za-z0-9_]+`) are keys -/
@@ -114,6 +114,11 @@ def Num.fracDigits (n : Num) : Bytes := n.frac.getD []
 def Num.WF (n : Num) : Prop :=
   IsDigits n.ip ∧ IsDigits n.fracDigits ∧ n.ip.length + n.fracDigits.length ≥ 1 ∧
   ∀ e sgn ed, n.exp = some (e, sgn, ed) → (e = 101 ∨ e = 69) ∧ IsDigits ed ∧ ed ≠ []
+
+/-- the texts on which the code's machine arithmetic is exact: at most 18 mantissa digits (`long long y1`) and at
+    most 9 exponent digits (`int` in `myatoiz` and for `exp`) -/
+def Num.InRange (n : Num) : Prop :=
+  n.ip.length + n.fracDigits.length ≤ 18 ∧ ∀ e sgn ed, n.exp = some (e, sgn, ed) → ed.length ≤ 9
 
 def Num.expText (n : Num) : Bytes :=
   match n.exp with
